@@ -2,6 +2,8 @@
 
 package vuego
 
+import "github.com/titpetric/vuego/internal/helpers"
+
 // Thin read-only wrappers around unexported functions, compiled only with
 // `-tags verif` (used by the external verification harness). No existing line
 // of the package is touched; without the tag this file does not exist for the
@@ -9,3 +11,6 @@ package vuego
 
 // VerifSplitPath exposes splitPathImpl.
 func VerifSplitPath(expr string) []string { return splitPathImpl(expr) }
+
+// VerifIsTruthy exposes internal/helpers.IsTruthy.
+func VerifIsTruthy(v any) bool { return helpers.IsTruthy(v) }
